@@ -2,4 +2,4 @@ From Coq Require Import NArith ZArith.
 From GoMC Require Import Base.Bytes Model.C14.
 Require Import ExtrOcamlBasic.
 Extraction "c14_model.ml" create step load img offs tss getN fsize read_range torn_image read_at anvil_chunk
-  write_sector read_sector exist_sector idx Z.of_N N.of_nat write_sector_fail.
+  write_sector read_sector exist_sector idx Z.of_N N.of_nat write_sector_fail mkwr.
